@@ -33,6 +33,27 @@ ExpandEv ==
            /\ \A m \in {E.uni, E.left, E.right} : {x.id : x \in RangeOf(m)} = 1..Len(m)
            /\ TabOf(E.uni) = want.tabs.uni /\ TabOf(E.left) = want.tabs.left /\ TabOf(E.right) = want.tabs.right)
 
+(* C17 / C18: Trainer::extract_feature_set as a whole.  Each of the three sections of
+   rewrite.def is applied to the word's OWN feature list (and the list is used unchanged when
+   no rule of that section matches - the fallback clause of C17); the templates are then
+   expanded over the three results.  With `simple` templates (one plain reference each) the
+   expanded strings are the rewritten cells themselves: that half is owned by C17, the half
+   with arbitrary templates by C18. *)
+FsetRows(rows, rules) ==
+   [k \in 1..(3 * Len(rows)) |->
+      LET i == (k + 2) \div 3  kind == (k + 2) % 3  r == rows[i]
+          rs == IF kind = 0 THEN rules.uni ELSE IF kind = 1 THEN rules.left ELSE rules.right
+      IN [kind |-> kind, feats |-> Rewrite(rs, r.cells).out, cate |-> r.cate]]
+FsetEv ==
+   /\ Is("fset")
+   /\ LET want == Intern(E.T, FsetRows(E.rows, E.rules))
+          owner == IF E.simple THEN "C17" ELSE "C18" IN
+      /\ A(owner, "each-section-rewrites-the-word's-own-features-else-unchanged",
+           \A i \in 1..Len(E.rows) :
+              /\ E.ids[i].u = want.ids[3 * i - 2] /\ E.ids[i].l = want.ids[3 * i - 1] /\ E.ids[i].r = want.ids[3 * i])
+      /\ A(owner, "interned-strings-are-the-expansions-of-the-rewritten-features",
+           TabOf(E.uni) = want.tabs.uni /\ TabOf(E.left) = want.tabs.left /\ TabOf(E.right) = want.tabs.right)
+
 (* C19 *)
 CorpusEv ==
    /\ Is("corpus")
@@ -80,7 +101,7 @@ CliCorpusEv ==
             /\ A("C19", "evaluate-accepts-tokenizer-output", E.eval_ok)
             /\ (n > 0 => A("C19", "tokenizer-agrees-with-itself", E.precision = "1" /\ E.recall = "1" /\ E.f1 = "1")))
 
-Next == RewriteEv \/ ExpandEv \/ CorpusEv \/ MecabEv \/ CliCorpusEv
+Next == RewriteEv \/ ExpandEv \/ FsetEv \/ CorpusEv \/ MecabEv \/ CliCorpusEv
 Spec == Init /\ [][Next]_l
 Accepted ==
    LET d == TLCGet("stats").diameter IN
